@@ -217,6 +217,12 @@ def decide(prop, tier, only_unit=None, verbose=False):
             elif k:
                 lines.append(f"NOTE finding-no-longer-reproduces property={prop} {r['id']}")
                 r['status'] = 'known-finding-gone'
+    # the auto-check obligation of a harness that is confined to a recorded finding fails together with that finding
+    # (e.g. the panic that IS the finding): it belongs to the same known finding, not to a new one
+    kf_harness = {(r['unit'], r['harness']) for r in results if r['status'] == 'known-finding'}
+    for r in results:
+        if r.get('expect_fail') and r['status'] == 'failed' and r['id'].endswith('.safety') and (r['unit'], r['harness']) in kf_harness:
+            r['status'] = 'known-finding'
     groups = {}
     for r in results:
         if r['status'] == 'failed':
